@@ -4,7 +4,7 @@ From Emitter Require Import Lib.Base Model.MsgCodec Model.Murmur Model.Channel M
      Model.Trie Model.Store Model.Broker Spec.PubSub Spec.BrokerSpec Proofs.ListFacts Proofs.TrieProofs Proofs.BrokerProofs.
 
 Section generic.
-Context {I : Type} (X : ixops I) (abs : I -> list (list N * N)) (inv : I -> Prop) (HS : IxSpec X abs inv).
+Context {I : Type} (X : ixops I) (abs : I -> list (list N * N)) (inv : I -> Prop) (okf : list N -> Prop) (HS : IxSpec X abs inv okf).
 Notation broker := (@broker I).
 
 Definition clear_out (b : broker) : broker := B (b_trie b) (b_conns b) (b_store b) (b_seq b) (b_queue b) [].
@@ -19,7 +19,7 @@ Theorem delivery_exact mqtt (b : broker) ssid ch payload exclude :
                                        /\ conn_of_sub (b_conns b) s 0 = Some i /\ exclude <> Some s.
 Proof.
   intros Hi b'. destruct (deliver_exact X mqtt b ssid ch payload exclude) as [E O].
-  destruct (ixs_lookup X abs inv HS mqtt ssid (b_trie b) Hi) as [ND L].
+  destruct (ixs_lookup X abs inv okf HS mqtt ssid (b_trie b) Hi) as [ND L].
   split; [exact E|]. exists (targets X mqtt b ssid exclude). split; [exact O|]. split.
   - unfold targets. apply NoDup_targets. exact ND.
   - intros i. rewrite in_targets. split.
@@ -189,7 +189,7 @@ Theorem presence_status_exact mqtt (b : broker) ssid i u :
    exists s f c, In (f, s) (abs (b_trie b)) /\ matches mqtt f ssid = true
                  /\ conn_of_sub (b_conns b) s 0 = Some i /\ get_conn (b_conns b) (N.to_nat i) = Some c /\ u = cn_user c).
 Proof.
-  intros Hi. destruct (ixs_lookup X abs inv HS mqtt ssid (b_trie b) Hi) as [_ L]. rewrite in_presence_who. split.
+  intros Hi. destruct (ixs_lookup X abs inv okf HS mqtt ssid (b_trie b) Hi) as [_ L]. rewrite in_presence_who. split.
   - intros (s & c & A & B & G & U). apply L in A. destruct A as (f & A & M). exists s, f, c. auto.
   - intros (s & f & c & A & M & B & G & U). exists s, c. split; [apply L; exists f; auto | auto].
 Qed.
@@ -227,7 +227,7 @@ Proof.
   intros Hi f r.
   pose proof (deliver_fold (PPresence (nf_sub n) (nf_chan n) (nf_who n) (nf_user n)) None (b_conns acc)
                            (ix_lookup X (e_mqtt e) (nf_ssid n) (b_trie acc)) acc eq_refl) as [_ O]. cbn beta in O.
-  destruct (ixs_lookup X abs inv HS (e_mqtt e) (nf_ssid n) (b_trie acc) Hi) as [ND L].
+  destruct (ixs_lookup X abs inv okf HS (e_mqtt e) (nf_ssid n) (b_trie acc) Hi) as [ND L].
   exists (flat_map (target_of (b_conns acc) None) (ix_lookup X (e_mqtt e) (nf_ssid n) (b_trie acc))).
   split; [exact O|]. split; [apply NoDup_targets; exact ND|].
   intros i. rewrite in_flat_map. split.
@@ -263,9 +263,9 @@ Lemma unsubscribe_ev_held mqtt (b : broker) i c ssid ch :
 Proof.
   intros Hi Hc G b'. unfold b', unsubscribe_ev. rewrite Hc. cbn [negb]. cbn.
   fold (drop_ctr c ssid).
-  destruct (ixs_lookup X abs inv HS mqtt ssid (b_trie b) Hi) as [_ L].
+  destruct (ixs_lookup X abs inv okf HS mqtt ssid (b_trie b) Hi) as [_ L].
   destruct (mem (cn_sub c) (ix_lookup X mqtt ssid (b_trie b))) eqn:M; cbn.
-  - destruct (ixs_unsub X abs inv HS ssid (cn_sub c) (b_trie b) Hi) as [I2 A2].
+  - destruct (ixs_unsub X abs inv okf HS ssid (cn_sub c) (b_trie b) Hi) as [I2 A2].
     split; [exact I2|]. split; [exact A2|]. split; [eapply get_set_same; exact G|]. auto.
   - split; [exact Hi|]. split.
     + intros p. split; [|intros [A _]; exact A]. intros A. split; [exact A|]. intros ->.
